@@ -59,9 +59,16 @@ func (C18) Gen(r *core.Rng, tier string, emit func(string)) {
 			emit("retag " + kind + " " + mode)
 		}
 	}
+	for _, kind := range kinds {
+		emit("appear " + kind)
+	}
 	emit("filerace 64 4")
 	emit("filerace 5000 8")
 	emit("bucket httpdown 10 0 5 none")
+	for _, st := range []int{203, 204, 300, 301, 304, 403, 500} {
+		emit(fmt.Sprintf("bucket httpstatus%d 10 0 5 none", st))
+		emit(fmt.Sprintf("bucket httpstatus%d 10 2 8 cur", st))
+	}
 	emit("bucket httpdown 10 0 5 cur")
 	// the origin drops the connection of the read itself (a fresh connection: net/http does not retry); whatever
 	// the condition, the read is an ordinary error — in particular never the new object's bytes for an outdated tag
@@ -138,8 +145,12 @@ func c18Open(kind string) (*c18Backend, error) {
 				os.Chtimes(p, mt, mt)
 			}
 		}, cleanup: func() { os.RemoveAll(dir) }}, nil
-	case "http", "httpdown", "httpflaky":
+	case "http", "httpdown", "httpflaky", "httpstatus204", "httpstatus300", "httpstatus301", "httpstatus304", "httpstatus403", "httpstatus500", "httpstatus203":
 		var mu sync.Mutex
+		forced := 0
+		if strings.HasPrefix(kind, "httpstatus") {
+			forced, _ = strconv.Atoi(strings.TrimPrefix(kind, "httpstatus"))
+		}
 		var content []byte
 		var version int
 		puts := 0
@@ -166,6 +177,16 @@ func c18Open(kind string) (*c18Backend, error) {
 			}
 			if c == nil {
 				http.NotFound(w, r)
+				return
+			}
+			if forced != 0 {
+				// an origin (or something in front of it) that answers reads with a status that is neither a
+				// success with content nor one of the refresh signals: no Location, a short body
+				w.Header().Set("ETag", fmt.Sprintf(`"v%d"`, v))
+				w.WriteHeader(forced)
+				if forced != 204 && forced != 304 {
+					w.Write([]byte("see other"))
+				}
 				return
 			}
 			w.Header().Set("ETag", fmt.Sprintf(`"v%d"`, v))
@@ -374,13 +395,41 @@ func (C18) RunGo(line string) string {
 			prevTag = tag
 		}
 		return "changed"
+	case "appear":
+		// one bucket instance: the object is asked for while it does not exist, then it is uploaded, then asked
+		// for again at once — and removed, and asked for again
+		be, err := c18Open(t[1])
+		if err != nil {
+			return "open-failed"
+		}
+		defer be.cleanup()
+		res := ""
+		for round := 0; round < 2; round++ {
+			if _, _, _, err := be.b.NewRangeReaderEtag(ctx, "o.bin", 0, 100, ""); err == nil {
+				return res + "found-before-upload"
+			}
+			v := []byte(fmt.Sprintf("appeared-%d", round))
+			be.put(v, "rename")
+			r, _, _, err := be.b.NewRangeReaderEtag(ctx, "o.bin", 0, 100, "")
+			if err != nil {
+				return res + "missing-after-upload"
+			}
+			data, _ := io.ReadAll(r)
+			r.Close()
+			if !bytes.Equal(data, v) {
+				return res + "wrong-bytes"
+			}
+			res += "miss-then-ok "
+			be.put(nil, "")
+		}
+		return strings.TrimSpace(res)
 	}
 	return "bad-case"
 }
 
 func (C18) NonTrivial(line string) bool {
 	t := strings.Fields(line)
-	if t[0] == "retag" {
+	if t[0] == "retag" || t[0] == "appear" {
 		return true
 	}
 	n, _ := strconv.Atoi(t[2])
@@ -421,6 +470,9 @@ func (C18) Oracle(line, goOut string) string {
 		}
 		return ""
 	}
+	if t[0] == "appear" && goOut != "miss-then-ok miss-then-ok" {
+		return "an object asked for before it existed, then uploaded (and removed, and uploaded again) on the " + t[1] + " backend: " + goOut
+	}
 	if t[0] == "retag" && goOut != "changed" {
 		return "replacement history (" + t[2] + ") on the " + t[1] + " backend: " + goOut
 	}
@@ -435,6 +487,12 @@ func (C18) Oracle(line, goOut string) string {
 			if goOut == "err" {
 				return "" // the failure is reported; a backend that retries (keeping the condition) is judged like a plain read below
 			}
+		}
+		if strings.HasPrefix(t[1], "httpstatus") {
+			if goOut != "err" {
+				return "the origin answered status " + strings.TrimPrefix(t[1], "httpstatus") + " (no content delivered): must be an ordinary error, got " + goOut
+			}
+			return ""
 		}
 		if t[2] == "absent" || t[1] == "httpdown" {
 			if goOut != "err" {
